@@ -17,6 +17,7 @@ the per-point input flag "the ID is flapping here".
 -/
 import Kap.Proofs.C01Flap
 import Kap.Proofs.C01Decl
+import Kap.Proofs.C01Window
 namespace Kap.Props.C01
 open Kap.C01
 
@@ -217,6 +218,72 @@ theorem flapping_with_interval_can_add_an_event :
     let ps : List Pt := [{ t := 0, w := some true }, { t := 1, w := some true, c := some true }, { t := 2, w := some true },
                          { t := 11, w := some true }]
     ¬ ((runStream c flap (newAlertState c) ps).2).Sublist ((runStream { c with useFlap := false } flap (newAlertState c) ps).2) := by
+  decide
+
+/-! ### Flap detection: the flag itself -/
+
+/-- The loop of `percentChange` was recognised and starts two slots after `idx` (= at the second oldest entry). -/
+theorem flap_loop_recognised : Gen.flapStartOffset = some 2 := by decide
+
+/-- **All-slots ring theorem**: after `addEvent(t, l)` EVERY slot of the ring holds the level that many steps back in
+the history extended by `l` (levels before the first point: OK) — every ring size, every position of `idx`, the wrap. -/
+theorem ring_holds_last_levels (c : Cfg) (flap : FlapFn) (s : St) (t : Int) (l : Nat) (recent : List Nat)
+    (hidx : s.idx < s.history.length) (h : RingRep s recent) :
+    RingRep (addEvent c flap s t l) (l :: recent) :=
+  addEvent_rep c flap s t l recent hidx h
+
+/-- **`percentChange` compares what the documentation says**: the `history − 1` adjacent pairs of the last `history`
+levels in chronological order, oldest pair first (so the weights grow with recency). -/
+theorem flap_comparisons_documented (s : St) (recent : List Nat) (hidx : s.idx < s.history.length) (h : RingRep s recent) :
+    ringDiffs ((Gen.flapStartOffset).getD 0) s.history s.idx = docDiffs s.history.length recent :=
+  ringDiffs_eq_docDiffs s recent hidx h
+
+/-- the `if … else if …` of `updateFlapping` is the documented hysteresis: a flapping ID stays flapping until the
+percentage is below `low`; a quiet one starts flapping when it is above `high`. -/
+theorem flap_hysteresis (flapping belowLow aboveHigh : Bool) :
+    hysteresis flapping belowLow aboveHigh = (if flapping then !belowLow else aboveHigh) := by
+  cases flapping <;> cases belowLow <;> cases aboveHigh <;> decide
+
+/-- **The flapping flag of the code is the documented one, for every history** (stream form; every decision `dec` on
+the comparison outcomes: the float64 arithmetic the driver executes, the exact one, any other). -/
+theorem stream_flags_documented (c : Cfg) (hc : c.WF) (dec : FlapDecide) (ps : List Pt) :
+    streamFlags c (codeFlap dec) (newAlertState c) ps = specStreamFlags c dec {} ps :=
+  stream_flags_eq c dec ps _ _ (frel_init c (by have := hc.two; omega))
+
+theorem batch_flags_documented (c : Cfg) (hc : c.WF) (dec : FlapDecide) (bs : List Batch) :
+    batchFlags c (codeFlap dec) (newAlertState c) bs = specBatchFlags c dec {} bs :=
+  batch_flags_eq c dec bs _ _ (frel_init c (by have := hc.two; omega))
+
+/-- **Closed form, stream**: with the code's flap detection the events are those of the history spec with the
+DOCUMENTED flapping flags — nothing of the code's state is left in the statement. -/
+theorem stream_events_closed (c : Cfg) (hc : c.WF) (dec : FlapDecide) (ps : List Pt) :
+    (runStream c (codeFlap dec) (newAlertState c) ps).2 = specStream c {} (ps.zip (specStreamFlags c dec {} ps)) := by
+  rw [stream_events_exact c hc, stream_flags_documented c hc]
+
+theorem batch_events_closed (c : Cfg) (hc : c.WF) (dec : FlapDecide) (bs : List Batch) :
+    (runBatches c (codeFlap dec) (newAlertState c) bs).2 = specBatches c {} (bs.zip (specBatchFlags c dec {} bs)) := by
+  rw [batch_events_exact c hc, batch_flags_documented c hc]
+
+/-- The defect repaired by the third `fix:` commit of findings/C01.txt: with the loop starting AT `idx` (offset 0)
+one single change OK→WARNING in a ring of 3 is seen by BOTH comparisons (newest≠previous, and oldest≠newest across
+the seam): percentage 0.9 instead of the documented 0.5, so with flapping(0.25, 0.6) the old code declared the ID
+flapping at its first alert; the documented rule and the repaired code do not. Exact arithmetic.
+Replayed on the real code by corpus/C01/flap-window.ops. -/
+theorem old_flap_window_counts_one_change_twice :
+    let ring := [0, 2, 0]     -- idx = 1: newest WARNING, previous OK (slot 0), oldest OK (slot 2)
+    ringDiffs 0 ring 1 = [true, true] ∧ ringDiffs 2 ring 1 = [false, true] ∧ docDiffs 3 [2] = [false, true] ∧
+    weighNum [true, true] * 10 = 9 * (5 * 2 * 2) ∧ weighNum [false, true] * 10 = 5 * (5 * 2 * 2) ∧
+    exactDecide 1 4 3 5 false (ringDiffs 0 ring 1) = true ∧ exactDecide 1 4 3 5 false (ringDiffs 2 ring 1) = false := by
+  decide
+
+/-- The level sequence of upstream's integration test `TestStream_AlertFlapping` (history 21, flapping(0.25, 0.5)):
+9 events, the last two alerts dropped — with the repaired loop and exact arithmetic, as the test expects. -/
+theorem upstream_flapping_test_sequence :
+    let c : Cfg := { info := true, warn := true, crit := true, useFlap := true, history := 21 }
+    let pt (t : Int) (l : Nat) : Pt := { t := t, i := some (decide (l ≥ 1)), w := some (decide (l ≥ 2)), c := some (decide (l ≥ 3)) }
+    let ps := [pt 1 0, pt 2 3, pt 3 0, pt 4 2, pt 5 3, pt 6 0, pt 7 3, pt 8 0, pt 9 2, pt 10 0, pt 11 3, pt 12 0]
+    ((runStream c (codeFlap (exactDecide 1 4 1 2)) (newAlertState c) ps).2.map (fun e => (e.level, e.time)))
+      = [(3, 2), (0, 3), (2, 4), (3, 5), (0, 6), (3, 7), (0, 8), (2, 9), (0, 10)] := by
   decide
 
 /-! ### The defect repaired by the `fix:` commit of findings/C01.txt -/
